@@ -262,33 +262,46 @@ def startBody (c : Core) (buf : Bytes) : Res :=
     | .req => raise c .invalidBody buf
     | .rsp => .cont { c with gen := .bodyClose } buf
 
+/-- `Requestant`: the body length the head announces when the body is not chunked:
+`int(contentLength)` (`None` when that fails or is negative), 0 without a Content-Length -/
+def reqLen (H : Hdrs) : Option Nat :=
+  match hget H sCL with
+  | some v => lengthOf v
+  | none => some 0
+
+/-- the fields `Requestant.parseHead` assigns after the leader -/
+def reqHeadCore (c : Core) (H : Hdrs) : Core :=
+  { c with headers := some H, chunked := some (isChunked H),
+           length := if isChunked H then none else reqLen H,
+           persisted := reqPersisted c.version H (isChunked H) (if isChunked H then none else reqLen H) }
+
 /-- rest of `Requestant.parseHead` after the leader -/
-def reqHeadDone (c : Core) (h : Hdrs) (buf : Bytes) : Res :=
-  let chunked := isChunked h
-  let length : Option Nat :=
-    if ¬ chunked then
-      match hget h sCL with
-      | some v => lengthOf v
-      | none => some 0
-    else none
-  let c := { c with headers := some h, chunked := some chunked, length := length,
-                    persisted := reqPersisted c.version h chunked length }
-  startBody c buf
+def reqHeadDone (c : Core) (h : Hdrs) (buf : Bytes) : Res := startBody (reqHeadCore c h) buf
+
+/-- `Respondent`: the body length the head announces: 0 for 204, 304, 1xx and answers to HEAD,
+else `int(contentLength)` when not chunked -/
+def rspLen (c : Core) (H : Hdrs) : Option Nat :=
+  let st := c.status.getD 0
+  if st = 204 ∨ st = 304 ∨ (100 ≤ st ∧ st < 200) ∨ c.method = sHEAD then some 0
+  else match hget H sCL with
+    | some v => if isChunked H then none else lengthOf v
+    | none => none
+
+/-- the fields `Respondent.parseHead` assigns after the leader (before `checkPersisted`) -/
+def rspHeadCore (c : Core) (H : Hdrs) : Core :=
+  { c with headers := some H, chunked := some (isChunked H), length := rspLen c H }
 
 /-- rest of `Respondent.parseHead` after the leader -/
 def rspHeadDone (c : Core) (h : Hdrs) (buf : Bytes) : Res :=
-  let chunked := isChunked h
-  let length : Option Nat :=
-    match hget h sCL with
-    | some v => if ¬ chunked then lengthOf v else none
-    | none => none
-  let st := c.status.getD 0
-  let length := if st = 204 ∨ st = 304 ∨ (100 ≤ st ∧ st < 200) ∨ c.method = sHEAD then some 0 else length
-  let c := { c with headers := some h, chunked := some chunked, length := length }
+  let c := rspHeadCore c h
   if isEvented h then .stop { c with gen := .unmodelled } buf
-  else
-    let c := { c with persisted := rspPersisted c.version h chunked length }
-    startBody c buf
+  else startBody { c with persisted := rspPersisted c.version h (isChunked h) c.length } buf
+
+/-- rest of `parseHead` after the leader, for either parser -/
+def headDone (c : Core) (H : Hdrs) (buf : Bytes) : Res :=
+  match c.kind with
+  | .req => reqHeadDone c H buf
+  | .rsp => rspHeadDone c H buf
 
 /-- entering a loop that drives a leader: the closed test, then the position -/
 def enterLeader (c : Core) (g : Gen) (buf : Bytes) : Res :=
@@ -356,10 +369,7 @@ def stepOn (c : Core) (buf : Bytes) : Res :=
     | .wait => .stop c buf
     | .err e rest => raise c e rest
     | .more h' rest => .cont { c with gen := .hdrs h' } rest
-    | .done h rest =>
-      match c.kind with
-      | .req => reqHeadDone c h rest
-      | .rsp => rspHeadDone c h rest
+    | .done h rest => headDone c h rest
   | .chunkSize =>
     match lineTry c.max false buf with
     | .wait => .stop c buf
